@@ -119,6 +119,13 @@ def write_stall_schedules(full):
             out.append({"tag": "stall/lat=%s/k=%d/release=19/never-outlasting" % ("-".join(map(str, lat)), k),
                         "sched": {"auth": 0, "policy": "never", "ackAt": 1, "infoAt": 1, "lat": lat, "locale": "en_US"},
                         "wstall": {"at": 15, "k": k, "release": 19}})
+    # ... and a client that WOULD echo promptly: it can only do so if the half-written Keep Alive is completed as soon as the transport
+    # reopens (19 s), not when the next packet happens to be queued (the stage that follows outlasts the next deadline)
+    for lat in ([16, 40, 2], [4, 12, 40], [16, 1, 40]):
+        for k in (1, 4):
+            out.append({"tag": "stall/lat=%s/k=%d/release=19/prompt-outlasting" % ("-".join(map(str, lat)), k),
+                        "sched": {"auth": 0, "policy": "prompt", "ackAt": 1, "infoAt": 1, "lat": lat, "locale": "en_US"},
+                        "wstall": {"at": 15, "k": k, "release": 19}})
     return out
 
 
@@ -185,6 +192,17 @@ def run(prop, tier):
         clauses = sorted(f["clauses"])
         rep.violation("%s %s [%s]" % (prop, "+".join(clauses), sc["tag"]),
                       {"failing_clauses": clauses, "schedule": sc, "observed": {k: o[k] for k in o if k != "ref"}, "reference": o.get("ref"), "seed": seed})
+    # the segmentation of the very first bytes, through the whole application with the PROXY protocol on: header and first frames in one
+    # segment, the header in two pieces, everything separately (Trace_Listener!C08_HeaderSegmentationIrrelevant)
+    import listener_check
+    hscs = [{"family": "C08hdr", "proxy": True, "allowV1": True, "allowV2": True, "timeoutS": 4},
+            {"family": "C08hdr", "proxy": True, "allowV1": True, "allowV2": True, "timeoutS": 4, "secret": "a secret of the operator"}]
+    hfails, hobs, ht = listener_check.app_stage("C08", hscs, wd, "hdr")
+    for sc, o, clauses in hfails:
+        bad = [x for x in o.get("results", []) if x.get("outcome") != "served"]
+        rep.violation("%s %s [application, PROXY protocol: %s]" % (prop, "+".join(clauses), ", ".join("%s/%s/%s -> %s" % (x["hdr"], x["kind"], x["cut"], x["outcome"]) for x in bad)[:300]),
+                      {"failing_clauses": clauses, "scenario": sc, "observed": o, "seed": seed})
+    notes.append("application level: %d connections with differently segmented PROXY header / first frames, judged by Trace_Listener" % sum(len(o.get("results", [])) for o in hobs))
     rc = rep.finish()
     cov = {
         "states": r1.distinct + r3.distinct + tr.distinct,
